@@ -2,7 +2,7 @@
 {'culture', 'family', 'text'}; used by C01 (spans) and C12 (overlap)."""
 from hypothesis import strategies as st
 
-from checks import c03, c04, c06, c07, c08, c09, c10, c13, c20
+from checks import c03, c04, c05, c06, c07, c08, c09, c10, c13, c20
 from gens import dt as G
 
 
@@ -29,6 +29,16 @@ def expressions(culture, small_numbers=False):
         fam.append(c04.cases(culture).map(lambda k: ('number-words', c04.phrase(dict(k, n=k['n'] % 10 ** 7 if small_numbers else k['n'])))))
     if culture in G.DT_CULTURES:
         fam.append(c06.cases(culture).map(lambda k: ('date', c06.build(dict(k, carrier='{}'))[2])))
+    units = [e for e in c05.table_entries() if e[0] == culture]
+    if units:
+        def unit_expr(i, numeral):
+            c, t, kind, f, unit, epi = units[i % len(units)]
+            return ('unit:' + t, c05.build_query({'culture': c, 'type': t, 'kind': kind, 'spelling': f, 'unit': unit, 'numeral': numeral,
+                                                  'carrier': False})[2])
+        fam.append(st.builds(unit_expr, st.integers(0, len(units) - 1), st.sampled_from(['int', 'dec'])))
+        common = [i for i, e in enumerate(units) if e[3].lower() in ('usd', 'us$', '$', 'dollars', 'euros', 'eur', '€', 'kg', 'km', 'years old', 'degrees')]
+        if common:
+            fam.append(st.builds(lambda i, n: unit_expr(common[i % len(common)], n), st.integers(0, 50), st.sampled_from(['int', 'dec'])))
     if culture == 'en-us':
         fam.extend(_en_only())
     return st.one_of(fam).map(lambda t: {'culture': culture, 'family': t[0], 'text': t[1]})
